@@ -87,6 +87,14 @@ def insertByKey (key : Nat → Int) (i : Nat) : List Nat → List Nat
 def argsort (keys : List Int) : List Nat :=
   (List.range keys.length).foldl (fun acc i => insertByKey (fun j => keys.getD j 0) i acc) []
 
+/-- insertion into a list sorted by `le`. -/
+def insertSorted {α} (le : α → α → Bool) (x : α) : List α → List α
+  | [] => [x]
+  | y :: ys => if le x y then x :: y :: ys else y :: insertSorted le x ys
+
+/-- `sorted(l)` by insertion (structural, so the kernel can evaluate it). -/
+def isort {α} (le : α → α → Bool) (l : List α) : List α := l.foldr (insertSorted le) []
+
 /-- a shuffle table as NumPy holds it. -/
 abbrev Tbl := Array (Array Int)
 
